@@ -285,8 +285,15 @@ def run(ctx):
     t_nlog = ctx.drive(nostd, ["--cases", plog, "--seed", str(ctx.seed + 7), "--n", str(ctx.pick(150, 1500)), "--max-words", str(mw), "--only-log2"],
                        "trace-nostd-log2.ndjson")
     t_rel = ctx.drive(rel, ["--cases", prel, "--n", "0"], "trace-release.ndjson")
+    # operands above the length where the Lehmer loop switches to double-word guesses (read from the source)
+    dwl = fw.source_constants()["GCD_MIN_DWORD_GUESS_LEN"]
+    ctx.scope.update({"lehmer_dword_guess_len_words": dwl})
+    t_leh = ctx.drive(std, ["--seed", str(ctx.seed + 3), "--n", "0", "--lehmer", str(ctx.pick(4, 12)), str(dwl + 1)], "trace-lehmer.ndjson")
+    t_lehr = ctx.drive(rel, ["--seed", str(ctx.seed + 4), "--n", "0", "--lehmer", str(ctx.pick(2, 8)), str(dwl + 1)], "trace-lehmer-rel.ndjson")
 
     jobs = []
+    jobs += split_trace(ctx, t_leh, "lehmer", ctx.pick(4, 6))
+    jobs += split_trace(ctx, t_lehr, "lehmer-rel", ctx.pick(2, 4))
     jobs += split_trace(ctx, t_big, "big", ctx.pick(4, 6))
     jobs += split_trace(ctx, t_prim, "prim", ctx.pick(3, 12))
     jobs += split_trace(ctx, t_rnd, "rnd", ctx.pick(2, 6))
